@@ -169,6 +169,8 @@ func checkC08(c *Ctx) {
 	c.checkCacheAfterStore()
 	// the loader reconstructs the owner exactly as the live topic determines it (shared with C06)
 	c.checkOwnerWriters()
+	c.checkSnapshotBeforeChange()
+	c.checkLoaderRecordsFromOneRow()
 }
 
 // checkCacheAfterStore: in a handler that persists a change, the mirrored topic fields are
